@@ -2,4 +2,6 @@
 pub mod exact;
 pub mod framework;
 pub mod world;
+pub mod poolview;
+pub mod pool;
 pub mod props;
